@@ -473,6 +473,93 @@ Definition sk_tucker_normalize : cmd := seq [   (* tucker_tensor = 0 *)
 Definition sk_tucker_normalize_method : cmd := seq [
   Call 20 sk_tucker_normalize [0] 18; ListGet 21 20 0; ListGet 22 20 1; ListSet 0 0 21; ListSet 0 1 22 ].
 
+(* --- process_regularization_weights(ridge_coefficients=0, sparsity_coefficients=1, n_modes) as the code IS:
+       when the caller passes lists, `ridge_coefficients[i] = 0` / `sparsity_coefficients[i] = 0` (None entries) and
+       `ridge_coefficients[i] = max(sparsity_coefficients)` (unregularised modes) assign into the CALLER's lists.
+       nr / ns = positions of None entries of the two lists, dg = unregularised positions, mx = position of the maximum. *)
+Definition prw_writes (r s : var) (nr ns dg : list nat) (mx : nat) : cmd := seq (
+  map (fun i => Seq (Alloc 10 1) (ListSet r i 10)) nr ++
+  map (fun i => Seq (Alloc 10 1) (ListSet s i 10)) ns ++
+  map (fun i => Seq (ListGet 11 s mx) (ListSet r i 11)) dg).
+Definition sk_prw (nr ns dg : list nat) (mx : nat) : cmd := Seq (prw_writes 0 1 nr ns dg mx) (ListNew 12 [0; 1]).
+(* candidate repair: ridge_coefficients = list(ridge_coefficients); sparsity_coefficients = list(sparsity_coefficients) first *)
+Definition sk_prw_repaired (n : nat) (nr ns dg : list nat) (mx : nat) : cmd :=
+  seq [ ListCopy 20 0 n; ListCopy 21 1 n; prw_writes 20 21 nr ns dg mx; ListNew 12 [20; 21] ].
+
+(* ================================================================== early exits
+   `run c n s` executes at most n primitive commands of c and then stops (an exception raised between two effects
+   propagates to the caller: nothing else of the program runs).  Some m = completed with m steps to spare,
+   None = interrupted. *)
+Definition is_prim (c : cmd) : bool :=
+  match c with Seq _ _ | Repeat _ _ | Call _ _ _ _ => false | _ => true end.
+Fixpoint run_iter (k : nat) (f : nat -> state -> state * option nat) (n : nat) (s : state) : state * option nat :=
+  match k with
+  | O => (s, Some n)
+  | S k' => match f n s with
+            | (s1, Some m) => run_iter k' f m s1
+            | (s1, None) => (s1, None)
+            end
+  end.
+Fixpoint run (c : cmd) (n : nat) (s : state) : state * option nat :=
+  match c with
+  | Seq c1 c2 => match run c1 n s with
+                 | (s1, Some m) => run c2 m s1
+                 | (s1, None) => (s1, None)
+                 end
+  | Repeat k c1 => run_iter k (run c1) n s
+  | Call x body args ret =>
+      let '(e, h) := s in
+      match run body n (call_env RNull e args, h) with
+      | ((e', h'), Some m) => ((upd e x (e' ret), h'), Some m)
+      | ((e', h'), None) => ((e, h'), None)
+      end
+  | _ => match n with O => (s, None) | S m => (exec c s, Some m) end
+  end.
+
+(* ================================================================== order-generic skeleton families
+   The same skeletons for an arbitrary number of modes N, an arbitrary number of sweeps and arbitrary list
+   lengths; `safe` is proved for ALL parameter values by induction (Proofs/EffectsProofsGen.v). *)
+Definition read_all (factors : var) (N : nat) : cmd := seq (map (fun i => ListGet 30 factors i) (List.seq 0 N)).
+(* initialize_cp with a user init of N factors, weights absorbed into the last one *)
+Definition sk_initialize_cp_gen (N : nat) : cmd := seq [
+  ListGet 10 1 0; ListGet 11 1 1; ListCopy 12 11 N;
+  ListGet 13 12 (pred N); View 14 10 [0; 1]; Alloc 15 2; ListSet 12 (pred N) 15;
+  ListNew 17 [16; 12] ].
+Definition sk_fixed_modes_gen (fm len : nat) (rm : option nat) : cmd :=
+  Seq (ListCopy 20 fm len) (match rm with Some i => ListRemove 20 i | None => Skip end).
+Definition als_mode_gen (factors : var) (N mode : nat) : cmd := seq [
+  read_all factors N; Alloc 33 4; InplaceOp 33 2; Alloc 34 2; Alloc 35 2; View 36 35 [1; 0]; ListSet factors mode 36 ].
+(* parafac(tensor=0, init=1, fixed_modes=2, mask=3): N modes, `modes` = the updated modes in order *)
+Definition sk_parafac_gen (N sweeps fmlen : nat) (rm : option nat) (modes : list nat) : cmd := seq [
+  Call 22 (sk_initialize_cp_gen N) [0; 1] 17;
+  ListGet 23 22 0; ListGet 24 22 1;
+  sk_fixed_modes_gen 2 fmlen rm;
+  Repeat sweeps (Seq (seq (map (als_mode_gen 24 N) modes)) (sk_masked_update 0 3));
+  CPTENSOR 25 23 24 ].
+Definition hals_mode_gen (factors : var) (N mode : nat) : cmd := seq [
+  read_all factors N; Alloc 33 4; Alloc 34 2; View 37 34 [1; 0];
+  ListGet 38 factors mode; View 39 38 [1; 0]; Copy 40 39;
+  Call 41 sk_hals_nnls [37; 33; 40] 11;
+  View 42 41 [1; 0]; ListSet factors mode 42 ].
+(* non_negative_parafac_hals(tensor=0, init=1, sparsity_coefficients=2, fixed_modes=3) *)
+Definition sk_nn_parafac_hals_gen (N sweeps sclen fmlen : nat) (fixed modes : list nat) : cmd := seq [
+  Call 22 (sk_initialize_cp_gen N) [0; 1] 17;
+  ListGet 23 22 0; ListGet 24 22 1;
+  ListCopy 26 2 sclen; ListCopy 20 3 fmlen; seq (map (fun i => ListSet 26 i 27) fixed);
+  Repeat sweeps (seq (map (hals_mode_gen 24 N) modes));
+  CPTENSOR 25 23 24 ].
+(* tucker(tensor=0, init=1, mask=2) *)
+Definition sk_initialize_tucker_gen (N : nat) : cmd := seq [
+  ListGet 10 1 0; ListGet 11 1 1; ListCopy 12 11 N; ListNew 13 [10; 12] ].
+Definition sk_tucker_gen (N sweeps : nat) (modes : list nat) : cmd := seq [
+  Call 22 (sk_initialize_tucker_gen N) [0; 1] 13;
+  ListGet 23 22 0; ListGet 24 22 1;
+  Repeat sweeps (seq [
+    sk_masked_update 0 2;
+    seq (map (fun m => seq [ Alloc 30 4; Alloc 31 2; ListSet 24 m 31 ]) modes);
+    Alloc 23 4 ]);
+  ListNew 25 [23; 24] ].
+
 (* a concrete caller heap used by the examples: a tensor, a CP initialisation (weights, [A, B, C]) whose
    B is a transposed view, a fixed_modes list and a mask *)
 Definition demo_heap : heap := [
